@@ -96,6 +96,16 @@ class HistoryCorr(Corr):
                 v0 = fr.pop("ests")
                 v1 = [dict(e) for e in v0[: max(0, len(v0) - 1)]]
                 rng.shuffle(v1)
+                if task == "tracking" and i >= 1 and len(v0) >= 2 and rng.random() < 0.6:
+                    # tracked estimates change identity between frames (swap / new id), so that the tracking score of a frame really
+                    # depends on WHICH evaluation preceded it
+                    a, b = rng.sample(range(len(v0)), 2)
+                    if rng.random() < 0.5:
+                        v0[a]["uuid"], v0[b]["uuid"] = v0[b]["uuid"], v0[a]["uuid"]
+                    else:
+                        v0[a]["uuid"] = f"n{i}{a}"
+                    v1 = [dict(e) for e in v0[: max(0, len(v0) - 1)]]
+                    rng.shuffle(v1)
                 fr["est_variants"] = [v0, v1]
                 frames.append(fr)
             ops = []
@@ -133,15 +143,21 @@ class HistoryCorr(Corr):
         est_identity = {k: [id(o) for o in v] for k, v in est_lists.items()}
         answers = []
         ops_ids = []
+        gt_counts = []      # per call: add -> [total critical GT, per target label]; query -> the scene's [num_gt, per-label counts of the first Map]
         for op in case["ops"]:
             if op[0] == "query":
                 sc = mgr.get_scene_result()
-                answers.append([2, I["scene"](MC.score_fingerprint(sc))])
+                fp_ = MC.score_fingerprint(sc)
+                answers.append([2, I["scene"](fp_)])
                 ops_ids.append(None)
+                gt_counts.append([fp_["num_gt"], fp_["maps"][0]["ngt"] if fp_["maps"] else None,
+                                  [c[5] for c in fp_["tracking"][0]["clears"]] if fp_["tracking"] else None])
             else:
                 r = do_add(mgr, mgr.ground_truth_frames, case, op, est_lists)
                 answers.append([1, I["core"](core_fp(r)), I["track"](track_fp(r))])
                 ops_ids.append((op[1], I["ests"]([op[1], op[2]]), I["cfg"]([op[3], op[4]])))
+                labs = [g.semantic_label.label.value for g in r.frame_ground_truth.objects]
+                gt_counts.append([len(labs), [sum(1 for x in labs if x == t) for t in MC.TARGETS]])
         ds_after = [I["frame"](frame_fp(f)) for f in dataset]
         ds_same_objects = ds_identity == [[id(o) for o in f.objects] for f in dataset] and all(a is b for a, b in zip(dataset, mgr.ground_truth_frames))
         ests_unchanged = all(est_before[k] == [deep_fp(o) for o in v] and est_identity[k] == [id(o) for o in v] for k, v in est_lists.items())
@@ -184,7 +200,7 @@ class HistoryCorr(Corr):
             prev = op
             adds_so_far.append(op)
         return {"ds_before": ds_before, "ds_after": ds_after, "ds_same_objects": bool(ds_same_objects), "ests_unchanged": bool(ests_unchanged),
-                "answers": answers, "ops_ids": ops_ids, "G": gt, "W": wt, "T": tt, "S": st,
+                "answers": answers, "ops_ids": ops_ids, "G": gt, "W": wt, "T": tt, "S": st, "gt_counts": gt_counts,
                 "n_results": [len(a) for a in answers]}
 
     @staticmethod
@@ -218,6 +234,16 @@ class HistoryCorr(Corr):
         S = {tuple(cs): v for cs, v in obs["S"]}
         prev_core = 0
         cores = []
+        # ground-truth counts add up over ALL frame results held by the manager (a frame evaluated twice counts twice, like its results)
+        per_label = [0] * len(MC.TARGETS)
+        for k, (oid, cnt) in enumerate(zip(obs["ops_ids"], obs["gt_counts"])):
+            if oid is not None:
+                per_label = [a + b for a, b in zip(per_label, cnt[1])]
+                continue
+            for what, got in (("detection", cnt[1]), ("tracking", cnt[2])):
+                if got is not None and list(got) != per_label:
+                    return (f"call {k} (get_scene_result): per-label {what} ground-truth counts {list(got)} are not the sums {per_label} over the "
+                            f"frame results added so far")
         for k, (op, oid, ans) in enumerate(zip(case["ops"], obs["ops_ids"], obs["answers"])):
             if oid is None:
                 if ans[1] != S[tuple(cores)]:
